@@ -118,6 +118,11 @@ impl PacketSender {
         }
     }
 
+    #[cfg(feature = "uflow_verif")]
+    pub fn verif_alloc(&self) -> usize {
+        self.alloc
+    }
+
     pub fn pending_count(&self) -> usize {
         self.packet_send_queue.len()
     }
